@@ -66,7 +66,9 @@ void CaseLog::viol(const char* prop, const std::string& key, const std::string& 
     if (!f) return;
     std::string d = detail; for (size_t i = 0; i < d.size(); ++i) if (d[i] == '\n') d[i] = ' ';
     if (d.size() > 1500) d = d.substr(0, 1500) + "...";
-    fprintf(f, "VIOL %s %s | after EV %ld | %s\n", prop, key.c_str(), nEv, d.c_str()); fflush(f);
+    if (!overrideKey.empty()) { d = "[" + key + "] " + d; fprintf(f, "VIOL %s %s | after EV %ld | %s\n", prop, overrideKey.c_str(), nEv, d.c_str()); }
+    else fprintf(f, "VIOL %s %s | after EV %ld | %s\n", prop, key.c_str(), nEv, d.c_str());
+    fflush(f);
 }
 void CaseLog::obs(const std::string& k, const std::string& v) { if (f) { fprintf(f, "OBS %s %s\n", k.c_str(), v.c_str()); fflush(f); } }
 void CaseLog::close() { if (f) fclose(f); f = 0; }
